@@ -105,7 +105,7 @@ func logicalDump(st *node.KVStore, ntable int) dump {
 			pf, err := st.PFCount(now, key)
 			d[p+"pfcount"] = fmt.Sprint(pf) + es(err)
 		}
-		for _, kk := range keyPool {
+		for _, kk := range append(append([]string{}, keyPool...), bitPool[:2]...) {
 			key := []byte(tb + ":" + kk)
 			// bitmap
 			p := clBit + "|" + string(key) + "|"
@@ -123,6 +123,9 @@ func logicalDump(st *node.KVStore, ntable int) dump {
 			d[p+"ttl"] = fmt.Sprint(ttl) + es(err)
 			ex, err := st.BitKeyExist(key)
 			d[p+"exists"] = fmt.Sprint(ex) + es(err)
+			if kk[0] == 'b' {
+				continue
+			}
 
 			// hash
 			p = clHash + "|" + string(key) + "|"
